@@ -802,3 +802,14 @@ package commands
 //@   props C04
 //@   loop 2 iter checkedout(p)
 //@   at call (*commands.pointerMap).All:1 assert arg1__ == t.Oid
+
+// C12: a path of the migration is resolved in a tree by the exact name of the
+// entry: the index found names an entry called precisely that, and -1 means
+// that no entry is.
+//@ func findEntry
+//@   props C12
+//@   requires @inv t != nil
+//@   requires @inv forall_int(i, t.Entries[i], 0 <= i && i < len(t.Entries) ==> t.Entries[i] != nil)
+//@   loop 1 invariant forall_int(k, t.Entries[k], 0 <= k && k <= rangeindex ==> t.Entries[k].Name != name)
+//@   ensures @C12 result >= 0 ==> result < len(t.Entries) && t.Entries[result].Name == name
+//@   ensures @C12 result < 0 ==> result == -1 && forall_int(k, t.Entries[k], 0 <= k && k < len(t.Entries) ==> t.Entries[k].Name != name)
